@@ -345,12 +345,11 @@ Definition xop_redo (o : xuop) (s : xstate) : res (xuop * xstate) :=
       match i with
       | O => Panic 5
       | S j =>
-        (* drain((index - 1)..=index): panics when index >= len *)
+        (* drain((index - 1)..=index) (panics when index >= len), then insert(index - 1, merged); set_current_layer(index - 1) *)
         if (i <? length (xlayers s))%nat then
           let taken := firstn 2 (skipn j (xlayers s)) in
-          let rest := firstn j (xlayers s) ++ skipn (S i) (xlayers s) in
-          Ok (XMergeDown i None (Some taken),
-              with_xb s (with_curl (with_layers (xb s) (insert_at j M rest)) (Nat.min j (pred (length (insert_at j M rest))))))
+          let l' := firstn j (xlayers s) ++ M :: skipn (S i) (xlayers s) in
+          Ok (XMergeDown i None (Some taken), with_xb s (with_curl (with_layers (xb s) l') (Nat.min j (pred (length l')))))
         else Panic 4
       end
     | None => Err 7
